@@ -1,5 +1,5 @@
 SPECIFICATION Spec
-CONSTANT Mode = "faithful"
+CONSTANT Mode = "pinned"
 CONSTANT K = 2
 CONSTANT KW = 0
 CONSTANT KB = 0
